@@ -147,3 +147,28 @@ Proof.
   destruct r0 as [|[s pdu]|k|]; [congruence| | |]; try (intros H; injection H as <- <-; discriminate).
   destruct (dec_rsp_pdu pdu); intros H; injection H as <- <-; discriminate.
 Qed.
+
+(* ---- the record of skipped bytes never holds more than 256 entries, whatever is skipped ---- *)
+Lemma record_skip_bounded rec b : len rec <= MAX_FRAME_LEN -> len (record_skip rec b) <= MAX_FRAME_LEN.
+Proof.
+  unfold record_skip, MAX_FRAME_LEN. intros H. destruct (N.leb_spec 256 (len rec)); rewrite len_app; cbn; lia.
+Qed.
+
+Lemma record_fold_bounded : forall dropped rec, len rec <= MAX_FRAME_LEN ->
+  len (fold_left record_skip dropped rec) <= MAX_FRAME_LEN.
+Proof.
+  induction dropped as [|b d IH]; intros rec H; [exact H|]. cbn [fold_left]. apply IH. apply record_skip_bounded. exact H.
+Qed.
+
+Theorem record_after_bounded {I} rec dropped (r : dres I) : len rec <= MAX_FRAME_LEN ->
+  len (record_after rec dropped r) <= MAX_FRAME_LEN.
+Proof.
+  intros H. unfold record_after. destruct r; try (apply record_fold_bounded; exact H). unfold MAX_FRAME_LEN. cbn. lia.
+Qed.
+
+(* over any sequence of decoder calls (each with whatever it dropped and however it ended), starting empty *)
+Theorem record_always_bounded {I} : forall (calls : list (list N * dres I)) rec, len rec <= MAX_FRAME_LEN ->
+  len (fold_left (fun rc c => record_after rc (fst c) (snd c)) calls rec) <= MAX_FRAME_LEN.
+Proof.
+  induction calls as [|c cs IH]; intros rec H; [exact H|]. cbn [fold_left]. apply IH. apply record_after_bounded. exact H.
+Qed.
